@@ -68,3 +68,8 @@ pub mod c17 {
     use super::*;
     include!("c17.rs");
 }
+pub mod c16 {
+    #[allow(unused_imports)]
+    use super::*;
+    include!("c16.rs");
+}
